@@ -38,7 +38,7 @@
 
 static vf_tree T; static cJSON *parent, *x; static unsigned n; static cJSON *kid[K + 2];
 static cJSON *expect[K + 3]; static unsigned nexp;
-static char const_xkey[TS + 1]; static char const_key_arg[TS + 1]; static char ref_buf[TS + 1]; static cJSON *extra;   /* a detached item handed back to the caller */
+static char const_xkey[TS + 1]; static char const_key_arg[TS + 1]; static char ref_buf[TS + 1]; static char ref_big[2 * (TS + 3)]; static cJSON *extra;   /* a detached item handed back to the caller */
 
 #define INJECTED (vf_fail_at != 0 && vf_nreq >= vf_fail_at)      /* the refused request was actually reached */
 static int lower(int c) { return (c >= 'A' && c <= 'Z') ? c + 32 : c; }
@@ -73,7 +73,6 @@ static cJSON *make_x(void)
     switch (IN.xkind % 4) { case 0: kind = cJSON_Number; it->valueint = 7; it->valuedouble = 7; break; case 1: kind = cJSON_Array; break; case 2: kind = cJSON_Object; break;
         default: kind = cJSON_String; { char *s = (char *)vf_own(TS + 1); memcpy(s, IN.xstr, TS); s[TS] = 0; it->valuestring = s; } break; }
     it->type = kind;
-    if (OP == 19 && kind == cJSON_String && (IN.xkeymode & 8)) { vf_free(it->valuestring); memcpy(ref_buf, IN.xstr, TS); ref_buf[TS] = 0; it->valuestring = ref_buf; it->type |= cJSON_IsReference; }   /* a string reference: borrowed text */
     if ((IN.xkeymode % 3) == 1) { char *k = (char *)vf_own(TS + 1); memcpy(k, IN.xkey, TS); k[TS] = 0; it->string = k; }
     else if ((IN.xkeymode % 3) == 2) { memcpy(const_xkey, IN.xkey, TS); const_xkey[TS] = 0; it->string = const_xkey; it->type |= cJSON_StringIsConst; }
     return it;
@@ -279,14 +278,24 @@ int main(VF_MAIN_ARGS)
             r = cJSON_SetNumberHelper(x, IN.num); want = IN.num >= INT_MAX ? INT_MAX : IN.num <= (double)INT_MIN ? INT_MIN : (int)IN.num;
             VF_AP(6, r == IN.num && x->valuedouble == IN.num && x->valueint == want, "C06 set number stores the double and its saturated integer view");
         } else if (v == 1) {
-            char *old = x->valuestring; size_t oldlen = old ? vf_blen((unsigned char *)old) : 0, newlen, j; char newv[TS + 3]; char *r; int isstr = ((x->type & 0xFF) == cJSON_String);
-            memcpy(newv, IN.nstr, TS + 2); newv[TS + 2] = 0; newlen = strlen(newv); (void)j;
+            /* old and new text live in ONE object (old at its start, new behind it), so that the library's overlap guard - which orders
+             * the two pointers - is meaningful under CBMC's memory model (it compares offsets within an object) and natively alike */
+            enum { HALF = TS + 3 };
+            char *blk, *newv, *r, *old; size_t oldlen, newlen; char saved[TS + 3]; int isstr = ((x->type & 0xFF) == cJSON_String), isref = 0;
+            if (isstr && (IN.xkeymode & 8)) { blk = ref_big; x->type |= cJSON_IsReference; isref = 1; if (x->valuestring) vf_free(x->valuestring); }
+            else if (isstr) { blk = (char *)vf_own(2 * HALF); if (x->valuestring) vf_free(x->valuestring); }
+            else blk = ref_big;
+            memcpy(blk, IN.xstr, TS); blk[TS] = 0; newv = blk + HALF; memcpy(newv, IN.nstr, TS + 2); newv[TS + 2] = 0;
+            if (isstr) x->valuestring = blk;
+            old = x->valuestring; oldlen = old ? strlen(old) : 0; newlen = strlen(newv); memcpy(saved, newv, TS + 3);
+            live0 = vf_live; vf_fail_at = IN.fail_at ? vf_nreq + IN.fail_at : 0;
             r = cJSON_SetValuestring(x, (IN.mode & 1) ? (char *)0 : newv);
-            if (x->type & cJSON_IsReference) { VF_AP(7, r == 0 && x->valuestring == ref_buf && memcmp(ref_buf, IN.xstr, TS) == 0 && ref_buf[TS] == 0, "C07 set string refuses string references and never writes into borrowed text"); }
+            if (isref) { VF_AP(7, r == 0 && x->valuestring == blk && memcmp(blk, IN.xstr, TS) == 0 && blk[TS] == 0, "C07 set string refuses string references and never writes into borrowed text"); VF_WITNESS("ref"); }
             else if (!isstr || (IN.mode & 1)) VF_AP(6, r == 0 && x->valuestring == old, "C06 set string is refused for non-strings and NULL");
-            else if (r == 0 && newlen <= oldlen) { /* in-place path refused by the overlap guard: it orders pointers into different objects, which C leaves undefined and CBMC resolves arbitrarily - not asserted */ }
-            else if (r == 0) { VF_AP(8, INJECTED, "C08 set string fails only when the copy was refused"); VF_AP(8, x->valuestring == old && vf_live == live0, "C08 failed set string keeps the old value"); }
-            else { VF_AP(6, r == x->valuestring && strcmp(r, newv) == 0, "C06 set string stores the new text"); VF_AP(7, (newlen <= oldlen) == (r == old), "C07 shorter text is copied in place, longer text into a fresh block"); VF_AP(7, vf_live == live0, "C07 old block released when replaced"); VF_WITNESS("ok"); }
+            else if (r == 0) { VF_AP(8, newlen > oldlen && INJECTED, "C08 set string fails only when the copy was refused"); VF_AP(8, x->valuestring == old && vf_live == live0 && memcmp(old, IN.xstr, TS) == 0, "C08 failed set string keeps the old value"); }
+            else { VF_AP(6, r == x->valuestring && strcmp(r, saved) == 0, "C06 set string stores the new text"); VF_AP(7, (newlen <= oldlen) == (r == old), "C07 shorter text is copied in place, longer text into a fresh block"); VF_AP(7, vf_live == live0, "C07 old block released when replaced"); VF_WITNESS("ok"); }
+            if (isref || !isstr) x->valuestring = isstr ? 0 : x->valuestring;     /* the borrowed buffer is not part of the ledger */
+            if (isref) x->type &= ~cJSON_IsReference;
         } else {
             cJSON b; memset(&b, 0, sizeof b); b.type = (IN.mode & 1) ? cJSON_True : cJSON_False; b.type |= cJSON_StringIsConst;
             cJSON_SetBoolValue(&b, (IN.mode & 2));
